@@ -56,6 +56,13 @@ VARIANTS = {
     10: 'external outputs of resource groups are written member by member (write_output(j.g.a, ...))',
     11: 'input file A is a local file (uploaded by the client before submission, downloaded by the job)',
 }
+# job names around the length at which the scratch directory name is truncated (250 minus the job token): names share
+# a common prefix and differ only in their LAST character, or are identical
+for _k, _L in enumerate((244, 245, 246, 250, 251, 300)):
+    VARIANTS[12 + _k] = f'job names of {_L} characters with a common prefix of {_L - 1} characters (differ in the last one)'
+VARIANTS[18] = 'all jobs share one name of 250 characters'
+VARIANTS[19] = 'all jobs share one name of 300 characters'
+NAME_LEN = {12: 244, 13: 245, 14: 246, 15: 250, 16: 251, 17: 300, 18: 250, 19: 300}
 LOCAL_A = '/data/local/x.txt'
 
 URL_A = 'gs://data/a/x.txt'
@@ -254,6 +261,9 @@ def _build(N, inp, var, obs, st, sb, fc):
     if var != 11:
         cloud[url_a] = tok_a
     names = [('a b' if var == 2 else (None if var == 3 else f'j{j}')) for j in range(N)]
+    if var in NAME_LEN:
+        L = NAME_LEN[var]
+        names = [('n' * L if var >= 18 else 'n' * (L - 1) + str(j)) for j in range(N)]
     order = list(range(N - 1, -1, -1)) if var == 1 else list(range(N))
     jobs = {}
     for j in order:
@@ -548,8 +558,9 @@ def _constraints(cfg, N):
     base = V('var') == var_idx[0]
     if cfg.get('variants_on_small_space') and small:
         cons.append(z3.Or(base, z3.And(*[z3.Or(*[V(f'o_{j}') == k for k in small]) for j in range(N)])))
-        for j in cfg.get('two_reads_jobs', []):
-            cons.append(z3.Or(base, V(f'r2_{j}') == 0))
+        if not cfg.get('variants_keep_second_read'):
+            for j in cfg.get('two_reads_jobs', []):
+                cons.append(z3.Or(base, V(f'r2_{j}') == 0))
     if defect and small:
         isdef = [z3.Or(*[V(f'o_{j}') == k for k in defect]) for j in range(N)]
         cons.append(z3.Sum([z3.If(x, 1, 0) for x in isdef]) <= 1)
